@@ -201,8 +201,9 @@ def fasync_bases():
     for (bl, ji, sk) in _conn_policies():
         for (ra, rb) in [(16, 16), (32, 8), (8, 16)]:
             for (nom, exp) in [(1, 12), (12, 12), (1, 24)]:
-                s = spec({"a": node(ra, 1), "b": node(rb, 1)}, [{"o": "a", "n": "b", "blocking": bl, "jitter": ji, "skip": sk, "window": 2, "comm": d(nom, (), exp)}], "b")
-                bases.append((f"chainX.{'B' if bl else 'N'}{ji[0]}{'s' if sk else ''}.{ra}-{rb}.d{nom}e{exp}", s))
+                for adv in ((False, True) if (bl and (ra, rb) == (16, 16)) else (False,)):
+                    s = spec({"a": node(ra, 1), "b": node(rb, 1, advance=adv)}, [{"o": "a", "n": "b", "blocking": bl, "jitter": ji, "skip": sk, "window": 2, "comm": d(nom, (), exp)}], "b")
+                    bases.append((f"chainX.{'B' if bl else 'N'}{ji[0]}{'s' if sk else ''}.{ra}-{rb}.d{nom}e{exp}{'.adv' if adv else ''}", s))
     # 2-cycle a <-> b, back edge skipped; supervisor either node
     for (bl, ji, sk) in _conn_policies(allow_skip=False):
         for (bl2, ji2, _) in _conn_policies(force_skip=True):
